@@ -169,7 +169,8 @@ main(void)
             free(name);
             free(s);
         } else if (!strcmp(comp, "ymod") && (c.nf >= 3)) {
-            /* ymod <0: module description | 1: units of a typedef | 2: presence of a container> <hex s>
+            /* ymod <0: module description | 1: units of a typedef | 2: presence of a container; +4: s is written
+             * single-quoted and verbatim instead of double-quoted and escaped> <hex s>
              * API-level round trip: a module holding the statement with argument s (written with every special
              * character escaped, so that the first parse yields s) is parsed, printed as YANG, the output parsed
              * in a fresh context and printed again.
@@ -182,7 +183,21 @@ main(void)
             struct lys_module *m1 = NULL, *m2 = NULL;
             const char *v1, *v2;
 
-            qt[o++] = '"';
+            if (which & 4) {
+                /* single-quoted, verbatim (only for s without a single quote) */
+                which &= 3;
+                if (strchr(s, '\'')) {
+                    slen = 0;
+                    which = 9;
+                }
+                qt[o++] = '\'';
+                memcpy(qt + o, s, slen);
+                o += slen;
+                qt[o++] = '\'';
+                slen = 0;
+            } else {
+                qt[o++] = '"';
+            }
             for (i = 0; i < slen; ++i) {
                 switch (s[i]) {
                 case '\n': qt[o++] = '\\'; qt[o++] = 'n'; break;
@@ -192,9 +207,13 @@ main(void)
                 default: qt[o++] = s[i]; break;
                 }
             }
-            qt[o++] = '"';
+            if (qt[0] == '"') {
+                qt[o++] = '"';
+            }
             qt[o] = 0;
-            if (which == 1) {
+            if (which == 9) {
+                data = strdup("x");
+            } else if (which == 1) {
                 asprintf(&data, "module y {namespace \"urn:y\"; prefix y; typedef t {type string; units %s;}}", qt);
             } else if (which == 2) {
                 asprintf(&data, "module y {namespace \"urn:y\"; prefix y; container t {presence %s;}}", qt);
